@@ -16,7 +16,7 @@
    presentation); supercells are covered by tests only. *)
 From Coq Require Import List Arith ZArith Bool.
 Import ListNotations.
-From MV Require Import Base.Graph Base.Cover Base.ZV3 Geometry.Dimensionality Geometry.DimensionalityProofs
+From MV Require Import Geometry.RankDet Base.Graph Base.Cover Base.ZV3 Geometry.Dimensionality Geometry.DimensionalityProofs
   Geometry.DimensionalityInvariance.
 Local Open Scope nat_scope.
 
@@ -234,6 +234,26 @@ Print Assumptions C09_voltage_basis_change_partial.
 Theorem C09_mask_additive : forall p u v, mask p (oadd u v) = Nat.lxor (mask p u) (mask p v).
 Proof. exact mask_oadd. Qed.
 Print Assumptions C09_mask_additive.
+
+(* the INTEGER rank of the cycle-voltage lattice, defined by determinants (Geometry/RankDet.v): it depends only on the set of
+   voltages, is unchanged by every invertible change of lattice basis, and is the same for any two generating lists of one
+   lattice.  (That the elimination [rankZ] of dim_spec computes it is evaluated by vm_compute on every case -- rankZ_consistent.) *)
+Theorem C09_integer_rank_order_independent_partial :
+  forall vs vs', (forall x, In x vs <-> In x vs') -> rank_det vs = rank_det vs'.
+Proof. exact rank_det_same_set. Qed.
+Print Assumptions C09_integer_rank_order_independent_partial.
+Theorem C09_integer_rank_basis_change_partial :
+  forall U vs, udet U <> 0%Z -> rank_det (map (lin U) vs) = rank_det vs.
+Proof. exact rank_det_lin. Qed.
+Print Assumptions C09_integer_rank_basis_change_partial.
+Theorem C09_integer_rank_same_lattice_partial :
+  forall vs vs', (forall v, In v vs' -> span vs v) -> (forall v, In v vs -> span vs' v) -> rank_det vs = rank_det vs'.
+Proof. exact rank_det_same_lattice. Qed.
+Print Assumptions C09_integer_rank_same_lattice_partial.
+Example C09_integer_rank_examples :
+  rank_det [(1, 1, 0); (1, -1, 0)]%Z = 2%nat /\ rankZ [(1, 1, 0); (1, -1, 0)]%Z = 2%nat.
+Proof. exact rank_det_checkerboard. Qed.
+Print Assumptions C09_integer_rank_examples.
 
 (* the GF(2) rank can differ from the integer rank: a network connected to its images only through a+b and a-b *)
 Example C09_rank_mismatch_exists :
